@@ -257,7 +257,9 @@ Proof.
     destruct (Z.eqb_spec (dlen d + doff d) (fend s)) as [Eend|]; cbn [negb] in Hw; [|discriminate].
     injection Hw as <- _. cbn [dds img].
     rewrite dfind_dset_other by (cbn; congruence). rewrite Hd2.
-    f_equal. apply peek_ext. intros x Hx. apply poke_outside. unfold overlap_free in Hov. lia.
+    f_equal. apply peek_ext. intros x Hx.
+    rewrite poke_outside by (unfold overlap_free in Hov; lia).
+    apply poke_outside. unfold zlen. rewrite repeat_length. unfold overlap_free in Hov. lia.
   - assert (Hfit : pos + zlen bytes <= dlen d).
     { destruct app; cbn in E1, E2; [apply Z.ltb_ge in E2; lia | apply Z.ltb_ge in E1; lia]. }
     injection Hw as <- _. cbn [dds img]. rewrite Hd2.
